@@ -62,6 +62,7 @@ impl<F: Future> Future for Chaos<F> {
                 Decision::Dead => 4,
             };
             s.mix(id.wrapping_mul(0x9E37_79B9) ^ code);
+            s.note(|| format!("poll t{id} n{node} d{code}"));
             d
         });
         match d {
